@@ -311,6 +311,20 @@ structure MapEntry where
   path : List Char
 deriving DecidableEq, Repr
 
+/-! ## Go maps used as sets (`map[K]struct{}`), bit masks -/
+
+def setEmpty : List Int := []
+def setHas (s : List Int) (k : Int) : Bool := s.contains k
+def setAdd (s : List Int) (k : Int) : List Int := k :: s
+/-- `a & b` on non-negative ints -/
+def band (a b : Int) : Int := ((a.toNat &&& b.toNat : Nat) : Int)
+/-- `int32(x)` / `uint32(x)` of a value the code keeps in range -/
+def idInt (a : Int) : Int := a
+/-- `make([]T, n)` -/
+def makeList {β : Type} [Inhabited β] (n : Int) : List β := List.replicate n.toNat default
+/-- `copy(dst, src)` -/
+def copyInto {β : Type} (_cur dst src : List β) : List β := src.take dst.length ++ dst.drop src.length
+
 /-- `hatypes.HostsMaps` as `CreateMaps` builds it -/
 structure HostsMapsView where
   matchOrder : List MatchType
